@@ -42,7 +42,14 @@ RULE = ('surface cases = (record of 1..400 samples (lengths 1,2,3 and around eve
         'shifts, and the object-level join_sig_w_time_shift on Signal/AccSignal with times s*dt (dyadic/nice/reciprocal/'
         '1e-9..1e3 dt), s*dt+0.25dt, s*dt+0.999dt, decimal literals and one ulp below (s+1)*dt, jtype add/sub/omitted, '
         'positional/keyword. distinct = digest of all inputs and forms; non-trivial = record with a non-zero sample and at least 2 '
-        'samples (surface) / any non-zero value (shift).')
+        'samples (surface) / any non-zero value (shift). Audit round 2: travel-time vectors of 5..256 entries around powers of '
+        'two (ascending/descending/shuffled/repeated/maximum first or in the middle) and shift vectors of 8..128 entries; '
+        'results with rows x samples > 2**22; awkward steps (gen.awkward_dt, dt = D/k with D/(D/k) != k) and exact multiples m*dt '
+        'whose quotient lands just below m for travel times and stt; records with one sample 1e3..1e12 times larger than the '
+        'rest, tail-heavy, monotone, one-sided, a single changed sample; the four trim x start results of one input related to '
+        'each other; energy related to the integral of the motions and to the velocity of the signal; objects derived by the '
+        'library from analysed objects (deepcopy+reset, interp/resample, combine_at_angle, Cluster member, real part of '
+        'fas2signal) analysed through the object-level entry points.')
 ASSUMPTIONS = ['finite real records, dt > 0, travel times >= 0, stt >= 0',
                'reductions are both scalars or both ndarrays with one entry per travel time (list-typed, 0-d and mixed '
                'reductions and 0-d travel times are rejected by the library: outside the statement)',
@@ -65,6 +72,13 @@ ASSUMPTIONS = ['finite real records, dt > 0, travel times >= 0, stt >= 0',
                'purity: every array argument (record of the signal, travel times, reductions, values, shifts, 2-d array) must be '
                'bit-for-bit unchanged after each call; references are computed from snapshots taken at call entry',
                'clip=None is read as no clipping (docstring: "str or none")',
+               'tolerances are LOCAL: energy sample j within rt*(running max|E| up to j) + at*P[j]^2 with P[j] = dt*(|up|+|down|)*'
+               'sum_{i<=j}|x_i|, cumulative within rt*(C[j]+P[j]^2), motions within rt*(|up x_j|+|down|(|x_i|+|x_i+1|)); rt = 1e-9, '
+               'at = 1e-11 (64*eps32 for float32 records); valid for amplitudes 1e-12..1e24, dt 1e-9..1e3, up to 2**17 samples',
+               'results with more than 2**21 cells are judged on the rows {first, middle, last, largest delay, smallest delay}',
+               'complex-typed records (fas2signal) are counted, not judged; their real part is judged',
+               'returned arrays must not share memory with any argument (trim_to_length without trim/start returns its '
+               'argument by design and is exempt)',
                'oracle vf/oracles/surface.py is correct']
 EXHAUSTIVE = {'quick': 'put_array_in_2d_array: all shift vectors over {-3..3} of length 1..3 x n in {1,2,4} x clip in '
                        '{none,start,end,both}; join_values_w_shifts: all vectors over {0..3} of length 1..3 x n x {add,sub}',
@@ -80,7 +94,13 @@ MIN_EVALS = {'quick': {'energy==oracle': 15000, 'cum==oracle': 8800, 'cum==cumsu
                        'purity.values,shifts-unchanged': 18000, 'purity.shared-objects-unchanged-across-calls': 4800,
                        'shared-reduction==fresh-copies': 4800, 'first-result-unchanged-after-second-call': 600,
                        'history.repeat==first': 250, 'history.twin==object': 250, 'history.sequence-completed': 160, 'join_sig==padded+-shifted(int(t/dt))': 3600,
-                       'join_sig==join_values(int(t/dt))': 3600, 'purity.join_sig-arguments-unchanged': 3600},
+                       'join_sig==join_values(int(t/dt))': 3600, 'purity.join_sig-arguments-unchanged': 3600,
+                       'cum.trim==first-npts(no-trim)': 350, 'energy.trim==first-npts(no-trim)': 350,
+                       'motions.trim==first-npts(no-trim)': 350, 'energy.start==moved(no-start)': 180,
+                       'motions.start==moved(no-start)': 170, 'energy(tau=0,anti-nodal)==2v|v|(signal velocity)': 400,
+                       'energy==0.5v|v|(trapezoid of the motions)': 400, 'history.derived==fresh': 380,
+                       'join==pad+-put2d': 380, 'purity.signal-observables-unchanged': 400,
+                       'result-shares-no-memory-with-arguments': 65000},
              'thorough': {'energy==oracle': 270000, 'cum==oracle': 158400, 'cum==cumsum|d(observed energy)|': 158400,
                           'cum.non-decreasing': 158400, 'cum.zero@tau0-nodal': 21600,
                           'cum.scales-alpha^2(pow2,exact)': 14400, 'cum.scales-alpha^2(tol)': 14400,
@@ -92,7 +112,13 @@ MIN_EVALS = {'quick': {'energy==oracle': 15000, 'cum==oracle': 8800, 'cum==cumsu
                           'purity.shared-objects-unchanged-across-calls': 86400, 'shared-reduction==fresh-copies': 86400,
                           'first-result-unchanged-after-second-call': 10800, 'history.repeat==first': 4500,
                           'history.twin==object': 4500, 'history.sequence-completed': 2880, 'join_sig==padded+-shifted(int(t/dt))': 60000,
-                          'join_sig==join_values(int(t/dt))': 60000, 'purity.join_sig-arguments-unchanged': 60000}}
+                          'join_sig==join_values(int(t/dt))': 60000, 'purity.join_sig-arguments-unchanged': 60000,
+                          'cum.trim==first-npts(no-trim)': 5950, 'energy.trim==first-npts(no-trim)': 5950,
+                          'motions.trim==first-npts(no-trim)': 5950, 'energy.start==moved(no-start)': 3060,
+                          'motions.start==moved(no-start)': 2890, 'energy(tau=0,anti-nodal)==2v|v|(signal velocity)': 6800,
+                          'energy==0.5v|v|(trapezoid of the motions)': 6800, 'history.derived==fresh': 6460,
+                          'join==pad+-put2d': 6460, 'purity.signal-observables-unchanged': 6800,
+                          'result-shares-no-memory-with-arguments': 1105000}}
 CTX = None
 _INNER = {'active': False, 'energy': None}
 
@@ -219,27 +245,44 @@ EPS32 = float(np.finfo(np.float32).eps)
 F32_RTOL = 64 * EPS32      # a float32 record is given to eps32; numpy evaluates up_red*record in float32
 
 
+BIG_CELLS = 2 ** 21     # results with more cells are judged on a fixed subset of rows (first, middle, last, extreme delays)
+
+
+def _rows_to_judge(k, length, taus):
+    if k * length <= BIG_CELLS:
+        return list(range(k))
+    return sorted(set([0, k // 2, k - 1, int(np.argmax(taus)), int(np.argmin(taus))]))
+
+
 def _accept(got2d, x, dt, taus, nodal, ups, downs, stt, trim, start, kind, f32=False):
     """Two-sided comparison of a (rows x length) result with the reference. kind: 'energy' | 'cum' | 'acc'.
-    f32: the record is a float32 array - tolerances are 64*eps32 of the same well-conditioned scales."""
+    Tolerances are LOCAL: sample j of the energy may differ by rt*(running max|E| up to j) + at*P[j]^2 with P[j] the
+    magnitude of what has entered the velocity integral up to j; the cumulative series by rt*(C[j] + P[j]^2); the motions by
+    rt*(|up x_j| + |down|(|x_i|+|x_i+1|)). rt = 1e-9 (at = 1e-11), or 64*eps32 for both when the record is float32."""
     n = len(x)
     k = len(taus)
     if got2d.ndim != 2 or got2d.shape[0] != k:
         return False, 'result shape %s, expected %d rows' % (got2d.shape, k)
     length = got2d.shape[1]
-    alts = O.placements(n, dt, taus, stt, trim, start)
-    alts_l = [a for a in alts if a[0] == length]
-    if len(alts) > 1:
+    alts = O.placement_alternatives(n, dt, taus, stt, trim, start)
+    rows = _rows_to_judge(k, length, taus)
+    if len(rows) < k:
+        CTX.observe('%s result with more than 2**21 cells: %d of %d rows judged' % (kind, len(rows), k))
+    if len(alts) > 1 or any(len(o) > 1 for o in alts[0][0]) or (isinstance(alts[0][1], list) and any(len(o) > 1 for o in alts[0][1])):
         CTX.observe('%s call with a placement floor on an inexact knife edge (several admissible placements)' % kind)
-    if not alts_l:
-        return False, 'output length %d, admissible %s' % (length, sorted(set(a[0] for a in alts)))
     base = {}
     rowres = {}
+    rt, at = (F32_RTOL, F32_RTOL) if f32 else (1e-9, 1e-11)
 
     def series(r, edge):
         if (r, edge) not in base:
-            acc = O.acc_series(x, dt, taus[r], nodal, ups[r], downs[r], O.natural_length(n, dt, taus[r]), edge)
-            base[(r, edge)] = acc if kind == 'acc' else O.energy_series(acc, dt)
+            ln = O.natural_length(n, dt, taus[r])
+            acc = O.acc_series(x, dt, taus[r], nodal, ups[r], downs[r], ln, edge)
+            if kind == 'acc':
+                base[(r, edge)] = (acc, O.acc_local_scale(x, dt, taus[r], ups[r], downs[r], ln), None)
+            else:
+                e = O.energy_series(acc, dt)
+                base[(r, edge)] = (e, O.running_max_abs(e), O.prefix_scale(x, dt, ups[r], downs[r], ln))
         return base[(r, edge)]
 
     def row_ok(r, shift):
@@ -247,40 +290,50 @@ def _accept(got2d, x, dt, taus, nodal, ups, downs, stt, trim, start, kind, f32=F
             return rowres[(r, shift)]
         res = (False, '')
         for edge in O.edge_options(x, dt, taus[r]):
-            ref = O.place(series(r, edge), shift, length, tail_constant=(kind != 'acc'))
-            if kind == 'cum':
-                ref = O.cum_abs_change(ref)
-            ref = np.array(ref, dtype=float)
-            mx = float(np.max(np.abs(ref))) if ref.size else 0.0
+            ser, sc1, sc2 = series(r, edge)
+            ref = O.place(ser, shift, length, tail_constant=(kind != 'acc'))
             if kind == 'acc':
-                args = dict(scale=(abs(ups[r]) + abs(downs[r])) * max(abs(v) for v in x), rtol=F32_RTOL if f32 else 1e-9)
+                allowed = rt * np.array(O.place(sc1, shift, length, tail_constant=False), dtype=float)
             else:
-                v2 = O.velocity_scale(x, dt, ups[r], downs[r]) ** 2
-                if f32:
-                    args = dict(scale=mx + v2, rtol=F32_RTOL)
+                pp = np.array(O.place(sc2, shift, length, tail_constant=True), dtype=float) ** 2
+                if kind == 'cum':
+                    ref = O.cum_abs_change(ref)
+                    allowed = rt * (np.array(ref, dtype=float) + pp)
                 else:
-                    args = dict(scale=mx, rtol=1e-9, atol=1e-11 * v2) if kind == 'energy' else dict(scale=mx + v2, rtol=1e-9)
-            if tol.close(got2d[r], ref, **args):
+                    allowed = rt * np.array(O.place(sc1, shift, length, tail_constant=True), dtype=float) + at * pp
+            ref = np.array(ref, dtype=float)
+            if tol.close(got2d[r], ref, scale=allowed, rtol=1.0):
                 res = (True, '')
                 if O.quotient_kind(taus[r], dt, 2, n)[0] == 'near':
                     CTX.observe('%s row with 2*tau/dt an inexact near-integer: accepted with first sample %s, last sample %s'
                                 % (kind, 'in' if edge[0] else 'out', 'in' if edge[1] else 'out'))
                 break
-            res = (False, tol.describe(got2d[r], ref, **args))
+            res = (False, tol.describe(got2d[r], ref, scale=allowed, rtol=1.0))
         rowres[(r, shift)] = res
         return res
 
     msg = ''
-    for (_, shifts) in alts_l:
+    for (row_opts, contrib, fixed_len) in alts:
+        if fixed_len is not None and length != fixed_len:
+            msg = 'output length %d, expected %d' % (length, fixed_len)
+            continue
+        if isinstance(contrib, list) and not O.length_admissible(length, n, contrib):
+            msg = 'output length %d is not npts + floor(max 2*tau/dt) = %d + %s' % (length, n, sorted(set(max(c) for c in contrib))[-3:])
+            continue
         good = True
-        for r in range(k):
-            ok_r, d = row_ok(r, shifts[r])
-            if not ok_r:
+        matched = [list(o) for o in row_opts]
+        for r in rows:
+            matched[r] = [sh for sh in row_opts[r] if row_ok(r, sh)[0]]
+            if not matched[r]:
                 good = False
-                msg = 'row %d (tau=%r, placement shift %d): %s' % (r, taus[r], shifts[r], d)
+                msg = 'row %d (tau=%r, placement shift %s): %s' % (r, taus[r], row_opts[r], row_ok(r, row_opts[r][0])[1])
                 break
-        if good:
-            return True, ''
+        if not good:
+            continue
+        if contrib == 'rows' and not O.length_admissible(length, n, matched):
+            msg = 'output length %d is not npts + max(largest start move, 0) for the moves that match the rows' % length
+            continue
+        return True, ''
     return False, msg
 
 
@@ -351,9 +404,27 @@ def _check_purity(fn, p, snap):
               '%s changed %s' % (fn, 'the record of the signal' if not rec_ok else 'the travel-time container'))
 
 
+def _shares(result, *arrays):
+    for a in arrays:
+        if isinstance(a, np.ndarray) and isinstance(result, np.ndarray) and np.may_share_memory(result, a) \
+                and np.shares_memory(result, a):
+            return True
+    return False
+
+
+def _check_owned(fn, result, wit, *arrays):
+    """The returned array owns its data: writing into it cannot reach any argument."""
+    CTX.check(not _shares(np.asarray(result) if not isinstance(result, np.ndarray) else result, *arrays),
+              'result-shares-no-memory-with-arguments', wit, '%s returned an array that shares memory with one of its arguments' % fn)
+
+
 def _check_surface(fn, args, kwargs, result, snap=None):
     ctx = CTX
     p = _parse(args, kwargs, _SURF_NAMES, _SURF_DEF)
+    if np.iscomplexobj(getattr(p['asig'], 'values', None)):
+        ctx.observe('%s: complex-typed record (not judged)' % fn)
+        return None
+    _check_owned(fn, result, lambda: _wit_surface(fn, p), getattr(p['asig'], 'values', None), p['travel_times'], p['up_red'], p['down_red'])
     if snap is not None:
         _check_purity(fn, p, snap)
         # the reference is computed from the arguments as they were handed in, never from the objects after the call
@@ -482,20 +553,36 @@ def _post_trim(args, kwargs, result, pre):
         return
     msg = ''
     okk = False
-    alts = O.placements(npts, dt, taus, stt, trim, start)
-    for (length, shifts) in alts:
-        if got.shape != (len(taus), length):
-            msg = 'shape %s, admissible lengths %s' % (got.shape, sorted(set(a[0] for a in alts)))
-            continue
-        good = True
-        for r in range(len(taus)):
-            ref = np.array(O.place([float(v) for v in values[r].tolist()], shifts[r], length, tail_constant=False), dtype=float)
-            if not np.array_equal(got[r], ref):
-                good = False
-                bad = int(np.flatnonzero(got[r] != ref)[0])
-                msg = 'row %d moved by %d: sample %d is %r, expected %r' % (r, shifts[r], bad, got[r][bad], ref[bad])
-                break
-        if good:
+    k = len(taus)
+    if got.ndim != 2 or got.shape[0] != k:
+        msg = 'shape %s, expected %d rows' % (got.shape, k)
+    else:
+        length = got.shape[1]
+        rows = _rows_to_judge(k, max(length, values.shape[1]), taus)
+        cache = {}
+
+        def row_ok(r, sh):
+            if (r, sh) not in cache:
+                ref = np.array(O.place([float(v) for v in values[r].tolist()], sh, length, tail_constant=False), dtype=float)
+                cache[(r, sh)] = bool(np.array_equal(got[r], ref))
+            return cache[(r, sh)]
+        for (row_opts, contrib, fixed_len) in O.placement_alternatives(npts, dt, taus, stt, trim, start):
+            if fixed_len is not None and length != fixed_len:
+                msg = 'length %d, expected %d' % (length, fixed_len)
+                continue
+            matched = [list(o) for o in row_opts]
+            good = True
+            for r in rows:
+                matched[r] = [sh for sh in row_opts[r] if row_ok(r, sh)]
+                if not matched[r]:
+                    good = False
+                    msg = 'row %d is not its input row moved by %s samples (zero filled in front, cut when negative)' % (r, row_opts[r])
+                    break
+            if not good:
+                continue
+            if contrib == 'rows' and not O.length_admissible(length, npts, matched):
+                msg = 'length %d is not npts + max(largest move, 0)' % length
+                continue
             okk = True
             break
     ctx.check(okk, 'trim.placement', wit, 'trim_to_length(npts=%d, tau=%s, dt=%r, trim=%s, start=%s, stt=%r): %s'
@@ -537,6 +624,9 @@ def _shift_purity(fn, p, pre, third_name):
 def _post_put(args, kwargs, result, pre):
     ctx = CTX
     p = _parse(args, kwargs, ('values', 'shifts', 'clip'), {'clip': 'none'})
+    if np.iscomplexobj(np.asarray(p['values'])) if not isinstance(p['values'], (list, tuple)) else False:
+        ctx.observe('put_array_in_2d_array: complex-typed values (not judged)')
+        return
     p = _shift_purity('put_array_in_2d_array', p, pre, 'clip')
     if p['clip'] is None:      # documented as "str or none": no clipping
         p = dict(p, clip='none', _clip_none=True)
@@ -549,6 +639,8 @@ def _post_put(args, kwargs, result, pre):
             or not np.all(np.isfinite(vals)):
         ctx.observe('put_array_in_2d_array: out of domain')
         return
+    _check_owned('put_array_in_2d_array', result, lambda: _shift_wit('put_array_in_2d_array', p['values'], p['shifts'], clip=p['clip']),
+                 args[0] if args else kwargs.get('values'), args[1] if len(args) > 1 else kwargs.get('shifts'))
     rows, width = O.put_in_2d(vals.tolist(), sh, p['clip'])
     ref = np.array(rows, dtype=float).reshape(len(sh), width)
     got = np.asarray(result)
@@ -566,6 +658,9 @@ def _post_put(args, kwargs, result, pre):
 def _post_join(args, kwargs, result, pre):
     ctx = CTX
     p = _parse(args, kwargs, ('values', 'shifts', 'jtype'), {'jtype': 'add'})
+    if np.iscomplexobj(np.asarray(p['values'])) if not isinstance(p['values'], (list, tuple)) else False:
+        ctx.observe('join_values_w_shifts: complex-typed values (not judged)')
+        return
     p = _shift_purity('join_values_w_shifts', p, pre, 'jtype')
     sh = _int_shifts(p['shifts'])
     try:
@@ -581,6 +676,8 @@ def _post_join(args, kwargs, result, pre):
     if min(sh) < 0:
         ctx.observe('join_values_w_shifts: negative shift returned a value (not judged)')
         return
+    _check_owned('join_values_w_shifts', result, lambda: _shift_wit('join_values_w_shifts', p['values'], p['shifts'], jtype=p['jtype']),
+                 args[0] if args else kwargs.get('values'), args[1] if len(args) > 1 else kwargs.get('shifts'))
     rows, mags = O.join(vals.tolist(), sh, p['jtype'])
     ref = np.array(rows, dtype=float)
     got = np.asarray(result)
@@ -625,6 +722,9 @@ def _post_join_sig(args, kwargs, result, pre):
     ctx.check(okp, 'purity.join_sig-arguments-unchanged', lambda: _wit_join_sig(p, pre, purity_only=True),
               'join_sig_w_time_shift changed the signal values / dt or its time_shifts argument')
     try:
+        if np.iscomplexobj(pre['values']):
+            ctx.observe('join_sig_w_time_shift: complex-typed record (not judged)')
+            return
         ts = np.asarray(pre['ts'], dtype=float)
         vals = np.asarray(pre['values'], dtype=float)
         dt = float(pre['dt'])
@@ -636,27 +736,42 @@ def _post_join_sig(args, kwargs, result, pre):
         ctx.observe('join_sig_w_time_shift: out of domain (negative/non-finite times, jtype not add/sub, ...)')
         return
     got = np.asarray(result)
-    # (a) definition: zero-padded original +/- copies shifted by int(t_k/dt) samples
+    if np.iscomplexobj(pre['values']):
+        ctx.observe('join_sig_w_time_shift: complex-typed record (not judged)')
+        return
+    _check_owned('join_sig_w_time_shift', result, lambda: _wit_join_sig(p, pre), sig.values, p['time_shifts'])
+    # (a) definition: zero-padded original +/- copies shifted by int(t_k/dt) samples; judged row by row (a row depends on
+    #     its own shift only, the common length on the largest one)
     opts = [O.trunc_options(float(t), dt) for t in ts.tolist()]
     n_alt = 1
     for o in opts:
         n_alt *= len(o)
     if n_alt > 1:
         ctx.observe('join_sig_w_time_shift: a quotient t/dt a few ulps below an integer (two admissible conversions)')
-    okk, msg = False, ''
-    if n_alt <= 64:
-        for combo in itertools.product(*opts):
-            rows, mags = O.join(vals.tolist(), list(combo), p['jtype'])
-            ref = np.array(rows, dtype=float)
-            if tol.close(got, ref, scale=np.array(mags, dtype=float), rtol=1e-12):
-                okk = True
-                break
-            msg = 'shifts %s: %s' % (list(combo), tol.describe(got, ref, scale=np.array(mags, dtype=float), rtol=1e-12))
-        ctx.check(okk, 'join_sig==padded+-shifted(int(t/dt))', lambda: _wit_join_sig(p, pre, got=got),
-                  'join_sig_w_time_shift(%s n=%d, dt=%r, times=%s, %r): %s'
-                  % (type(sig).__name__, vals.size, dt, ts.tolist()[:8], p['jtype'], msg))
+    okk, msg = True, ''
+    nv = vals.size
+    if got.ndim != 2 or got.shape[0] != len(opts):
+        okk, msg = False, 'shape %s, expected %d rows' % (got.shape, len(opts))
     else:
-        ctx.observe('join_sig_w_time_shift: too many ambiguous conversions (definition clause skipped)')
+        length = got.shape[1]
+        vl = vals.tolist()
+        matched = []
+        for r, o in enumerate(opts):
+            mr = []
+            for sft in o:
+                row, mag = O.join_row(vl, sft, p['jtype'], length)
+                if length >= nv + sft and tol.close(got[r], np.array(row), scale=np.array(mag), rtol=1e-12):
+                    mr.append(sft)
+            if not mr:
+                row, mag = O.join_row(vl, o[-1], p['jtype'], length)
+                okk, msg = False, 'row %d (t=%r, shift %s): %s' % (r, float(ts[r]), o, tol.describe(got[r], np.array(row), scale=np.array(mag), rtol=1e-12))
+                break
+            matched.append(mr)
+        if okk and not O.length_admissible(length, nv, matched):
+            okk, msg = False, 'length %d is not npts + largest shift (npts=%d, shifts %s)' % (length, nv, [m[-1] for m in matched][:8])
+    ctx.check(okk, 'join_sig==padded+-shifted(int(t/dt))', lambda: _wit_join_sig(p, pre, got=got),
+              'join_sig_w_time_shift(%s n=%d, dt=%r, times=%s, %r): %s'
+              % (type(sig).__name__, vals.size, dt, ts.tolist()[:8], p['jtype'], msg))
     # (b) relation between the two entry points: the result is what join_values_w_shifts gives for int(t/dt) as the library
     #     evaluates it; on a knife edge (quotient a few ulps below an integer) any admissible conversion may have been used
     try:
@@ -679,6 +794,23 @@ def _post_join_sig(args, kwargs, result, pre):
         if got.shape == other.shape and bool(np.array_equal(got, other)):
             same = True
             break
+    if not same and n_alt > 64 and got.ndim == 2 and got.shape[0] == len(opts):
+        same = True
+        for r, o in enumerate(opts):
+            hit = False
+            for sft in o:
+                try:
+                    with attach.paused():
+                        one = np.asarray(eqsig.fns.time_shift.join_values_w_shifts(np.array(pre['values']), np.array([sft]),
+                                                                                   jtype=p['jtype']))[0]
+                except Exception:
+                    continue
+                if len(one) <= got.shape[1] and np.array_equal(got[r, :len(one)], one) and not np.any(got[r, len(one):]):
+                    hit = True
+                    break
+            if not hit:
+                same = False
+                break
     ctx.check(same, 'join_sig==join_values(int(t/dt))', lambda: _wit_join_sig(p, pre, got=got),
               'join_sig_w_time_shift(..., %r) differs from join_values_w_shifts(values, int(t/dt)=%s, jtype=%r)'
               % (p['jtype'], list(literal)[:8], p['jtype']))
@@ -896,6 +1028,96 @@ def _rel_alpha(eqsig, ctx, c, alpha, base=None):
                                                                   if scaled.shape == ref.shape else 'shape'))
 
 
+def _rel_options(eqsig, ctx, c, fn):
+    """trim / start on the SAME input must relate: the trimmed result is the first npts samples of the untrimmed one; the
+    start=True result is the start=False result with every row moved by floor(stt/dt) - floor(tau/dt) samples."""
+    res = {}
+    for trim in (False, True):
+        for start in (False, True):
+            res[(trim, start)] = _call(eqsig, ctx, fn, dict(c, trim=trim, start=start))
+            if res[(trim, start)] is None:
+                return
+    x = _x64(c)
+    n = len(x)
+    taus = [float(t) for t in np.atleast_1d(np.asarray(c['travel_times'], dtype=float))]
+    k = len(taus)
+    r2 = dict((key, np.asarray(v, dtype=float).reshape(k, -1)) for key, v in res.items())
+    name = _REL_NAME[fn]
+    for start in (False, True):
+        full, cut = r2[(False, start)], r2[(True, start)]
+        ctx.check(cut.shape[1] == n and full.shape[1] >= n and bool(np.array_equal(cut, full[:, :n])),
+                  '%s.trim==first-npts(no-trim)' % name, lambda: _case_wit('rel.options', c, base_fn=fn),
+                  '%s(start=%s): trim=True (length %d) is not the first npts=%d samples of trim=False (length %d)'
+                  % (fn, start, cut.shape[1], n, full.shape[1]))
+    if fn == 'calc_cum_abs_surface_energy':   # the running sum restarts on the moved energy: only the trim relation applies
+        return r2
+    free, moved = r2[(False, False)], r2[(False, True)]
+    okk, msg = True, ''
+    fss = O.floor_options(float(c['stt']), c['dt'], 1, n)
+    for r in range(k):
+        hit = False
+        for fs in fss:
+            for ft in O.floor_options(taus[r], c['dt'], 1, n):
+                ref = np.array(O.place(free[r].tolist(), fs - ft, moved.shape[1], tail_constant=(fn != 'get_time_shift_motions')))
+                if np.array_equal(moved[r], ref):
+                    hit = True
+        if not hit:
+            okk, msg = False, 'row %d (tau=%r)' % (r, taus[r])
+            break
+    ctx.check(okk, '%s.start==moved(no-start)' % name, lambda: _case_wit('rel.options', c, base_fn=fn),
+              '%s: start=True is not start=False moved by floor(stt/dt)-floor(tau/dt) samples: %s' % (fn, msg))
+    return r2
+
+
+def _rel_sites(eqsig, ctx, c, i):
+    """Pairs of sites that must agree: energy <-> integral of the motions returned by the twin function; tau=0 anti-nodal
+    energy <-> the velocity of the signal object (both cumulative trapezoids)."""
+    x = _x64(c)
+    n = len(x)
+    f32 = _is_f32(c)
+    taus = np.atleast_1d(np.asarray(c['travel_times'], dtype=float))
+    k = len(taus)
+    cc = dict(c, trim=bool(i % 2), start=False)
+    e = _call(eqsig, ctx, 'calc_surface_energy', cc)
+    m = _call(eqsig, ctx, 'get_time_shift_motions', cc)
+    if e is not None and m is not None:
+        e2, m2 = np.asarray(e, dtype=float).reshape(k, -1), np.asarray(m, dtype=float).reshape(k, -1)
+        okk = e2.shape == m2.shape
+        if okk:
+            for r in range(k):
+                if O.quotient_kind(float(taus[r]), c['dt'], 2, n)[0] == 'near':
+                    ctx.observe('energy<->motions: row on an inexact knife edge (the twins may resolve it differently; skipped)')
+                    continue
+                ref = np.array(O.energy_series(m2[r].tolist(), c['dt']))
+                u, d = _row_red(c, r)
+                uu, dd = (1.0, 1.0) if u is None else (float(u), float(d))
+                pp = np.array(O.prefix_scale(x.tolist(), c['dt'], uu, dd, len(ref))) ** 2
+                # same allowance as the oracle comparison: the twins may evaluate the delayed positions differently
+                allowed = (F32_RTOL if f32 else 1e-9) * np.array(O.running_max_abs(ref)) + (F32_RTOL if f32 else 1e-11) * pp
+                if not tol.close(e2[r], ref, scale=allowed, rtol=1.0):
+                    okk = False
+                    break
+        ctx.check(okk, 'energy==0.5v|v|(trapezoid of the motions)', lambda: _case_wit('rel.sites', cc),
+                  'calc_surface_energy differs from 0.5*v|v| of the cumulative trapezoid of get_time_shift_motions (same options)')
+    # tau = 0 at an anti-nodal surface with unit reductions doubles the record: E = 2 v|v| with v the velocity of the signal
+    c0 = dict(c, travel_times=np.array([0.0]), tt_obj=None, tt_container='ndarray', nodal=False, up_red=None, down_red=None,
+              same_red_object=False, trim=False, start=False)
+    try:
+        asig = _make_sig(eqsig, c0)
+        vel = np.array(asig.velocity, dtype=float)
+    except Exception as ex:
+        ctx.observe('velocity of the signal could not be read (%s)' % type(ex).__name__)
+        return
+    e0 = _call(eqsig, ctx, 'calc_surface_energy', c0, asig=asig)
+    if e0 is not None:
+        ref = 2.0 * vel * np.abs(vel)
+        pp = np.array(O.prefix_scale(x.tolist(), c['dt'], 1.0, 1.0, n)) ** 2
+        rt = F32_RTOL if f32 else 1e-9
+        ctx.check(np.shape(e0) == ref.shape and tol.close(np.asarray(e0), ref, scale=np.array(O.running_max_abs(ref.tolist())) + pp, rtol=rt),
+                  'energy(tau=0,anti-nodal)==2v|v|(signal velocity)', lambda: _case_wit('rel.sites', c0),
+                  'tau=0, anti-nodal, unit reductions: energy differs from 2*velocity*|velocity| of the signal object')
+
+
 def _direct_trim(eqsig, ctx, c, i=0):
     """trim_to_length on an integer-coded array of the width its callers use; several container forms and call styles."""
     taus = np.atleast_1d(np.asarray(c['travel_times'], dtype=float))
@@ -966,8 +1188,10 @@ def draw_dt(rng):
         return gen.dt(rng, 'recip'), 'recip'
     if r < 0.82:
         return gen.dt(rng, 'log'), 'log'
-    if r < 0.92:
+    if r < 0.89:
         return float(10.0 ** rng.uniform(-9, 3)), 'wide-log'         # 1e-9 .. 1e3
+    if r < 0.95:
+        return gen.awkward_dt(rng, int(rng.integers(2, 51))), 'awkward'   # dt/(dt/k) != k and the like
     return float(10.0 ** int(rng.integers(-9, 4))), 'decade'         # 1e-9, 1e-8, ..., 1e3 exactly
 
 
@@ -984,7 +1208,8 @@ def draw_tau(rng, kind, n, dt, delay_tab, floor_tab, prev):
     if kind == 'knife' and delay_tab:
         return float(_pick(rng, delay_tab, 3 * n))
     if kind == 'floorknife' and floor_tab:
-        return float(_pick(rng, floor_tab, int(1.5 * n) + 1))
+        below = [t for t in floor_tab if t[0] / dt < t[1]]      # exact multiples of dt whose quotient lands just below
+        return float(_pick(rng, below if (below and rng.random() < 0.7) else floor_tab, int(1.5 * n) + 1))
     if kind == 'equal' and prev:
         return float(prev[int(rng.integers(len(prev)))])
     if kind == 'long':
@@ -1022,6 +1247,27 @@ def draw_record(rng, n):
         elif r < 0.5:    # large offset on a small signal
             x = x * 1e-6 + (np.max(np.abs(x)) + 1.0) * 1e3
             rcls += '+large-offset'
+        elif r < 0.57:   # one sample 1e3 .. 1e12 times larger than everything else (dynamic range inside the record)
+            x = x.copy()
+            pos = [0, n - 1, n // 2, int(rng.integers(n))][int(rng.integers(4))]
+            x[pos] = (np.max(np.abs(x)) + 1.0) * 10.0 ** rng.uniform(3, 12) * float(rng.choice([-1.0, 1.0]))
+            rcls += '+giant-sample'
+        elif r < 0.64 and n > 3:   # tail-heavy: all the action in the last 1/k of the record
+            x = x.copy()
+            x[: n - max(1, n // int(rng.choice([2, 4, 8, 16])))] = 0.0
+            if x[-1] == 0:
+                x[-1] = 1.0
+            rcls += '+tail-heavy'
+        elif r < 0.68:   # monotone / trend dominated
+            x = np.cumsum(np.abs(x)) * float(rng.choice([-1.0, 1.0])) + x[0]
+            rcls += '+monotone'
+        elif r < 0.72:   # one-sided: everything at negative values
+            x = -np.abs(x) - (1.0 if rng.random() < 0.5 else 0.0)
+            rcls += '+one-sided'
+        elif r < 0.75:   # a single non-zero sample at the very end / a single changed sample
+            x = np.zeros(n) if rng.random() < 0.5 else np.full(n, float(x[0]) if x[0] != 0 else 1.0)
+            x[-1 if rng.random() < 0.6 else int(rng.integers(n))] += float(rng.choice([-1.0, 1.0, 1e-6]))
+            rcls += '+single-sample'
     if rng.random() < 0.12:
         x = np.round(x * 4) / 4
     return np.asarray(x, dtype=float), rcls
@@ -1071,8 +1317,8 @@ def gen_surface_case(rng):
     n = int(N_CHOICES[int(rng.integers(len(N_CHOICES)))]) if rng.random() < 0.5 else \
         int(rng.choice([1, 2, 3, 5, 8, 13, 30, 67, 120, 250, 400], p=[.02, .05, .06, .1, .12, .15, .2, .14, .1, .04, .02]))
     x, rcls = draw_record(rng, n)
-    tk = str(rng.choice(['all-knife', 'all-half', 'all-frac', 'zero-nodal', 'mixed', 'boundary', 'int-tau'],
-                        p=[.15, .11, .1, .11, .33, .1, .1]))
+    tk = str(rng.choice(['all-knife', 'all-half', 'all-frac', 'zero-nodal', 'mixed', 'boundary', 'int-tau', 'awkward-fraction',
+                         'floor-below'], p=[.13, .09, .09, .1, .29, .09, .09, .06, .06]))
     k = int(rng.choice([1, 2, 3, 4], p=[.3, .3, .25, .15]))
     stt = None
     if tk == 'boundary':
@@ -1082,6 +1328,23 @@ def gen_surface_case(rng):
         f0 = int(taus[0] / dt)
         stt = float((f0 + int(rng.choice([n - 1, n, n + 1, 0, 1, -1]))) * dt)
         stt = max(stt, 0.0)
+    elif tk == 'awkward-fraction':
+        # the step is a fraction D/kk of a duration D for which D/(D/kk) != kk; travel times and stt are D, D/2, 2D, j*dt
+        kk = int(rng.integers(2, 60))
+        big = gen.awkward_dt(rng, kk)
+        dt, dtk = big / kk, 'awkward'
+        taus = [float(rng.choice([big, big / 2, 2 * big, big / kk * int(rng.integers(0, 3 * n + 1)), (big / kk) * kk]))
+                for _ in range(k)]
+        stt = float(rng.choice([big, 2 * big, 0.0, big / kk * int(rng.integers(0, 2 * n + 1)), big + big / 2]))
+    elif tk == 'floor-below':
+        # travel times and stt that are exact multiples m*dt (as floats or decimal literals) with t/dt just below m
+        dt, dtk = (gen.dt(rng, 'nice'), 'nice') if rng.random() < 0.6 else (gen.awkward_dt(rng, int(rng.integers(2, 51))), 'awkward')
+        ftab = [t for t in knife_tables(dt)[1] if t[0] / dt < t[1]]
+        if ftab:
+            taus = [float(_pick(rng, ftab, int(1.5 * n) + 1)) for _ in range(k)]
+            stt = float(_pick(rng, ftab, int(1.5 * n) + 1)) if rng.random() < 0.7 else 0.0
+        else:
+            taus = [float(int(rng.integers(0, 2 * n + 1)) * dt) for _ in range(k)]
     elif tk == 'int-tau':
         # integral travel times (integer containers of every width, incl. values whose doubling leaves the dtype)
         dt, dtk = float(INT_TAU_DT[int(rng.integers(len(INT_TAU_DT)))]), 'int-tau'
@@ -1094,7 +1357,7 @@ def gen_surface_case(rng):
     else:
         dt, dtk = draw_dt(rng)
     delay_tab, floor_tab = knife_tables(dt)
-    if tk not in ('boundary', 'int-tau'):
+    if tk not in ('boundary', 'int-tau', 'awkward-fraction', 'floor-below'):
         taus = []
         for i in range(k):
             if tk == 'all-knife':
@@ -1171,6 +1434,9 @@ def gen_surface_case(rng):
         opts += ['int-array', 'int-array', 'int-array', 'list-int', 'list-mixed'] + (['pyint'] if k == 1 else [])
     if tk == 'int-tau':
         opts += ['int-array'] * 6
+    if k > 1 and rng.random() < 0.3:      # explicit orders: ascending / descending (the last entry is then not the maximum)
+        taus = sorted(taus, reverse=bool(rng.random() < 0.6))
+        tarr = np.array(taus, dtype=float)
     if dtk == 'dyadic' and tk in ('all-half', 'boundary') and max(taus) < 2.0 ** 20 * dt:
         opts += ['f32-array', 'f32-array']
     cont = opts[int(rng.integers(len(opts)))]
@@ -1223,8 +1489,27 @@ def run_surface_case(eqsig, ctx, c, i, alpha):
     elif i % 3 == 0:
         _call(eqsig, ctx, 'calc_surface_energy', c)
     _rel_alpha(eqsig, ctx, c, alpha, base=cum)
+    if i % 3 == 0:
+        _rel_options(eqsig, ctx, c, ['calc_surface_energy', 'get_time_shift_motions', 'calc_cum_abs_surface_energy'][(i // 3) % 3])
+    if i % 4 == 2:
+        _rel_sites(eqsig, ctx, c, i)
     if isinstance(c.get('up_red'), np.ndarray) or i % 4 == 1:
         _seq_shared_reductions(eqsig, ctx, c, i)
+
+
+def _observables(sig):
+    """Public observables of a signal object, read on a DEEP COPY (reading must not warm the original)."""
+    import copy
+    d = copy.deepcopy(sig)
+    out = {}
+    for name in ('values', 'dt', 'npts', 'label', 'time', 'velocity', 'displacement', 'response_times', 'smooth_fa_freqs',
+                 'fa_frequencies'):
+        try:
+            v = getattr(d, name)
+            out[name] = (np.asarray(v).dtype.str, np.asarray(v).shape, np.asarray(v).tobytes())
+        except Exception as e:
+            out[name] = 'raises ' + type(e).__name__
+    return out
 
 
 def _seq_shared_reductions(eqsig, ctx, c, i):
@@ -1249,6 +1534,7 @@ def _seq_shared_reductions(eqsig, ctx, c, i):
         ctx.exception('energy==oracle', _case_wit('calc_surface_energy', c2), e)
         return
     x_keep = np.array(asig.values)
+    obs0 = _observables(asig) if i % 2 == 0 else None
     seq = [('calc_surface_energy', True), ('calc_surface_energy', False), ('calc_cum_abs_surface_energy', c['nodal']),
            ('calc_cum_abs_surface_energy', not c['nodal']), ('get_time_shift_motions', c['nodal'])]
     for fn, nodal in seq:
@@ -1268,6 +1554,11 @@ def _seq_shared_reductions(eqsig, ctx, c, i):
             ctx.check(np.shape(got) == np.shape(fresh) and bool(np.array_equal(got, fresh)), 'shared-reduction==fresh-copies',
                       lambda: _case_wit('rel.shared', cc, base_fn=fn),
                       '%s with shared argument objects differs from the call with separate fresh copies' % fn)
+    if obs0 is not None:
+        obs1 = _observables(asig)
+        bad = [nm for nm in obs0 if obs0[nm] != obs1[nm]]
+        ctx.check(not bad, 'purity.signal-observables-unchanged', lambda: _case_wit('calc_surface_energy', c2, changed=bad),
+                  'after the surface functions the signal object reads differently (on a deep copy): %s' % bad)
 
 
 # -- same-object histories ---------------------------------------------------------------------------------------------
@@ -1289,7 +1580,7 @@ def run_history(eqsig, ctx, rng, h):
     fns = ['calc_surface_energy', 'calc_cum_abs_surface_energy', 'get_time_shift_motions']
     steps = []
     for step in range(10):
-        op = str(rng.choice(['call', 'call', 'call', 'read', 'mutate', 'twin', 'regen']))
+        op = str(rng.choice(['call', 'call', 'call', 'read', 'mutate', 'twin', 'regen', 'derive']))
         steps.append(op)
         try:
             if op == 'call' or op == 'twin':
@@ -1314,6 +1605,52 @@ def run_history(eqsig, ctx, rng, h):
                         ctx.check(np.shape(ra) == np.shape(rb) and bool(np.array_equal(ra, rb)), 'history.twin==object',
                                   lambda: _case_wit(fn, cc, history=list(steps)),
                                   '%s on a twin object holding the same values gives another result' % fn)
+            elif op == 'derive':
+                # objects made by the library itself from the analysed ("warm") object, then analysed in turn
+                import copy
+                which = int(rng.integers(7))
+                if which == 0:
+                    d = copy.deepcopy(a)
+                    d.reset_values(np.asarray(a.values)[::-1].copy())
+                elif which == 1:
+                    d = eqsig.interp_to_approx_dt(a, a.dt / int(rng.integers(2, 4)))
+                elif which == 2:
+                    d = eqsig.interp_to_approx_dt(a, a.dt * 2) if a.npts > 8 else copy.deepcopy(a)
+                elif which == 3:
+                    d = eqsig.resample_to_approx_dt(a, a.dt * 2) if a.npts > 8 else copy.deepcopy(a)
+                elif which == 4:
+                    d = eqsig.combine_at_angle(a, twin if twin.npts == a.npts else copy.deepcopy(a), float(rng.uniform(0, 360)))
+                elif which == 5:
+                    d = eqsig.Cluster([np.asarray(a.values), np.asarray(a.values)[::-1].copy()], a.dt).signal_by_index(int(rng.integers(2)))
+                else:
+                    z = eqsig.fas2signal(a.fa_spectrum, a.dt)      # complex-typed: handed over once (counted), then its real part
+                    try:
+                        eqsig.join_sig_w_time_shift(z, np.array([0.0, 2 * z.dt]))
+                    except Exception as e:
+                        ctx.observe('join_sig_w_time_shift on a complex fas2signal record raised %s' % type(e).__name__)
+                    d = eqsig.AccSignal(np.real(z.values), z.dt)
+                ctx.observe('history: derived object kind %d (%s)' % (which, type(d).__name__))
+                if d.npts >= 1 and d.npts <= 1200 and np.all(np.isfinite(np.asarray(d.values, dtype=float))):
+                    fn = fns[int(rng.integers(3))]
+                    cc = dict(c, dt=d.dt, values=np.array(d.values), nodal=bool(rng.random() < 0.5), trim=bool(rng.random() < 0.5),
+                              start=bool(rng.random() < 0.5))
+                    if hasattr(d, 'npts') and isinstance(d, eqsig.AccSignal):
+                        rd = _call(eqsig, ctx, fn, cc, asig=d)
+                        rf = _call(eqsig, ctx, fn, cc)          # fresh object from the derived object's current values
+                        if rd is not None and rf is not None:
+                            ctx.check(np.shape(rd) == np.shape(rf) and bool(np.array_equal(rd, rf)), 'history.derived==fresh',
+                                      lambda: _case_wit(fn, cc, history=list(steps)),
+                                      '%s on an object derived by the library differs from a fresh object with the same values' % fn)
+                    ts = np.array([0.0, 1.0, 2.5]) * d.dt
+                    try:
+                        j1 = eqsig.join_sig_w_time_shift(d, ts, 'sub')
+                        j2 = eqsig.join_sig_w_time_shift(eqsig.Signal(np.array(d.values), d.dt), ts, jtype='sub')
+                        ctx.check(bool(np.array_equal(j1, j2)), 'history.derived==fresh', lambda: {'fn': 'join_sig_w_time_shift',
+                                  'values': np.array(d.values), 'dt': d.dt, 'time_shifts': ts, 'jtype': 'sub'},
+                                  'join_sig_w_time_shift on a derived object differs from a fresh Signal with the same values')
+                    except Exception as e:
+                        ctx.exception('join_sig==padded+-shifted(int(t/dt))', {'fn': 'join_sig_w_time_shift', 'values': np.array(d.values),
+                                                                              'dt': d.dt, 'time_shifts': ts, 'jtype': 'sub'}, e)
             elif op == 'read':
                 which = int(rng.integers(4))
                 if which == 0:
@@ -1386,6 +1723,86 @@ def run_back_to_back(eqsig, ctx, rng, j):
             ctx.exception('put2d==offsets' if which == 'put' else 'join==padded+-shifted',
                           {'fn': 'rel.b2b-shift', 'which': which, 'values': np.asarray(vals), 'other_values': vals2,
                            'shifts': sh, 'odd': bool(j % 2)}, e)
+
+
+K_SIZES = [5, 7, 8, 9, 15, 16, 17, 31, 32, 33, 63, 64, 65, 127, 128, 129, 256]
+
+
+def run_many_tau(eqsig, ctx, rng, j):
+    """Travel-time vectors with 5 .. 256 entries (around powers of two): ascending, descending, shuffled, with repeats, the
+    last entry not the maximum; array reductions of the same size."""
+    k = K_SIZES[j % len(K_SIZES)]
+    n = int(rng.choice([3, 5, 8, 13, 16, 31, 40]))
+    x, rcls = draw_record(rng, n)
+    dt, dtk = draw_dt(rng)
+    delay_tab, floor_tab = knife_tables(dt)
+    taus = [draw_tau(rng, str(rng.choice(['zero', 'half', 'knife', 'floorknife', 'short', 'long', 'equal'],
+                                         p=[.05, .2, .2, .15, .15, .15, .1])), n, dt, delay_tab, floor_tab, [])
+            for _ in range(k)]
+    if rng.random() < 0.3:
+        taus[int(rng.integers(k))] = taus[int(rng.integers(k))]        # repeated entries
+    order = ['ascending', 'descending', 'shuffled', 'max-first', 'max-in-the-middle'][j % 5]
+    if order == 'ascending':
+        taus = sorted(taus)
+    elif order == 'descending':
+        taus = sorted(taus, reverse=True)
+    elif order == 'max-first':
+        taus = sorted(taus, reverse=True)[:1] + [taus[i] for i in rng.permutation(k) if True][: k - 1]
+        taus[0] = max(taus)
+    elif order == 'max-in-the-middle':
+        taus = sorted(taus)
+        taus[k // 2], taus[-1] = taus[-1], taus[k // 2]
+    tarr = np.array(taus, dtype=float)
+    arr_red = j % 3 != 0
+    up = rng.uniform(0.05, 1.0, size=k) if arr_red else None
+    down = rng.uniform(0.05, 1.0, size=k) if arr_red else None
+    c = {'values': x, 'dt': dt, 'travel_times': tarr, 'tt_obj': _as_form(tarr, ['ndarray', 'view', 'readonly'][j % 3]) if j % 4 else taus,
+         'tt_container': 'ndarray' if j % 4 else 'list', 'nodal': bool(j % 2), 'up_red': up, 'down_red': down,
+         'stt': float(rng.choice([0.0, float(rng.uniform(0, 1.5 * n * dt)), float(int(rng.integers(0, 2 * n)) * dt)])),
+         'trim': bool((j // 2) % 2), 'start': bool((j // 4) % 2 == 0), 'call_style': ['kw', 'pos'][j % 2]}
+    ctx.case(core.digest(x, dt, tarr, c['stt'], c['trim'], c['start'], order), nontrivial=True,
+             cls='surface:many-tau(k=%d,%s)' % (k, order),
+             sample={'fn': 'calc_cum_abs_surface_energy+motions', 'n': n, 'k': k, 'order': order, 'dt': dt})
+    cum = _call(eqsig, ctx, 'calc_cum_abs_surface_energy', c)
+    _call(eqsig, ctx, 'get_time_shift_motions', c)
+    _direct_trim(eqsig, ctx, c, j)
+    if cum is not None:       # batch rows against single calls: three rows incl. the row of the largest delay
+        cum = np.asarray(cum)
+        for r in sorted(set([0, int(np.argmax(tarr)), k - 1])):
+            u, d = _row_red(c, r)
+            single = _call(eqsig, ctx, 'calc_cum_abs_surface_energy',
+                           dict(c, travel_times=np.array([tarr[r]]), tt_obj=None, tt_container='ndarray', up_red=u, down_red=d))
+            if single is not None:
+                single = np.asarray(single)
+                okk = cum.ndim == 2 and len(single) <= cum.shape[1] and tol.close(
+                    cum[r, :len(single)], single, scale=float(np.max(np.abs(single))) + 1e-300, rtol=1e-12)
+                ctx.check(okk, 'cum.batch-row==single', lambda: _case_wit('rel.batch', c, base_fn='calc_cum_abs_surface_energy', row=r),
+                          'row %d of a batch of %d travel times differs from the single call' % (r, k))
+    # shift vectors of the same sizes
+    sh = rng.integers(-6, 7, size=k)
+    vals = draw_values(rng, int(rng.choice([1, 3, 8])))[0]
+    for clip in ('none', 'start', 'end', 'both'):
+        _put(eqsig, ctx, vals, sh, clip)
+    _join(eqsig, ctx, vals, np.abs(sh), 'sub' if j % 2 else 'add')
+    _join_sig(eqsig, ctx, vals, 0.5, np.abs(sh) * 0.5 + 0.25, 'sub' if j % 2 else 'add', cls='AccSignal' if j % 2 else 'Signal')
+
+
+def run_big_product(eqsig, ctx, rng, j):
+    """rows x samples past 2**22 where the functions build an n x m matrix (a handful per quick run)."""
+    k = [64, 33, 129][j % 3]
+    n = 2 ** 22 // k + int(rng.integers(5, 60))
+    x, rcls = gen.record(rng, n, cls=['noise', 'quake', 'walk'][j % 3])
+    dt = [0.01, 1.0 / 128, 0.005][j % 3]
+    tarr = np.concatenate([[7 * dt, 0.0, 14.5 * dt], rng.uniform(0, 30 * dt, size=k - 3)])
+    tarr[k // 2] = 31 * dt           # the largest delay sits in the middle
+    c = {'values': x, 'dt': dt, 'travel_times': tarr, 'tt_obj': np.array(tarr), 'tt_container': 'ndarray', 'nodal': bool(j % 2),
+         'up_red': None, 'down_red': None, 'stt': 3.5 * dt if j % 2 else 0.0, 'trim': bool(j % 2), 'start': bool(j % 2)}
+    ctx.case(core.digest(x[:64], n, k, dt), nontrivial=True, cls='surface:rows*samples>2**22',
+             sample={'fn': 'calc_surface_energy', 'n': n, 'k': k, 'dt': dt})
+    _call(eqsig, ctx, 'calc_surface_energy', c)
+    if j % 2 == 0:
+        m = 2 ** 22 // 40 + 7
+        _put(eqsig, ctx, x[:m], rng.integers(-20, 21, size=41), ['none', 'both'][(j // 2) % 2])
 
 
 def run_long_case(eqsig, ctx, rng, j):
@@ -1512,7 +1929,9 @@ SHIFT_DTYPES = ['int64', 'int64', 'int32', 'int16', 'int8', 'uint8', 'uint16']
 
 def gen_shift_case(rng):
     n = int(rng.choice([1, 2, 3, 5, 9, 20, 60], p=[.1, .1, .15, .2, .2, .15, .1]))
-    k = int(rng.integers(1, 7))
+    k = int(rng.integers(1, 7)) if rng.random() < 0.9 else int(rng.choice([8, 15, 16, 17, 31, 32, 33, 63, 64, 65, 128]))
+    if k > 8:
+        n = min(n, 9)
     kind = str(rng.choice(['all-zero', 'all-negative', 'all-positive', 'mixed', 'non-negative', 'non-positive'],
                           p=[.1, .15, .15, .35, .15, .1]))
     m = int(rng.choice([3, n, 2 * n + 1, 120, 250]))       # 120 / 250: most of the int8 / uint8 range
@@ -1629,6 +2048,10 @@ def run_shard(ctx):
         run_back_to_back(eqsig, ctx, rng, j + ctx.shard)
     for j in range(1 if quick else 4):
         run_long_case(eqsig, ctx, rng, j + ctx.shard)
+    for j in range(7 if quick else 120):
+        run_many_tau(eqsig, ctx, rng, j * ctx.nshards + ctx.shard)
+    if ctx.shard < (4 if quick else 16):
+        run_big_product(eqsig, ctx, rng, ctx.shard)
     # -- shifts: exhaustive small vectors -----------------------------------------------------------------------------
     maxlen = 3 if quick else 4
     idx = 0
@@ -1684,6 +2107,19 @@ def run_shard(ctx):
         if sh.min() >= 0:
             _join(eqsig, ctx, v_arg, s_arg, 'add', style='pos' if i % 3 == 0 else 'kw')
             _join(eqsig, ctx, v_arg, s_arg, 'sub')
+            if i % 3 == 0:      # two sites that must agree: the join is the padded original +- what put_array_in_2d_array returns
+                try:
+                    jt = 'sub' if i % 2 else 'add'
+                    a1 = np.asarray(eqsig.put_array_in_2d_array(v_arg, s_arg), dtype=float)
+                    jj = np.asarray(eqsig.join_values_w_shifts(v_arg, s_arg, jtype=jt), dtype=float)
+                    a0 = np.zeros(a1.shape[1])
+                    a0[:len(vals)] = np.asarray(vals, dtype=float)
+                    ref = a0 + a1 if jt == 'add' else a0 - a1
+                    ctx.check(jj.shape == ref.shape and tol.close(jj, ref, scale=np.abs(a0) + np.abs(a1), rtol=1e-12),
+                              'join==pad+-put2d', lambda: _shift_wit('join_values_w_shifts', v_arg, s_arg, jtype=jt),
+                              'join_values_w_shifts differs from the padded original +- put_array_in_2d_array')
+                except Exception as e:
+                    ctx.exception('join==pad+-put2d', _shift_wit('join_values_w_shifts', v_arg, s_arg, jtype='add'), e)
         elif i % 4 == 0:
             _join(eqsig, ctx, vals, sh, 'add' if i % 2 else 'sub')
         if sh.min() >= 0:
